@@ -1,5 +1,11 @@
 """C13 — crops and patches are pixel-exact and honour their boundary contract (DESIGN.md section 6, C13).
 
+Ties to /repo: (1) the correspondence below; (2) the entry-point table regenerated from the live classes
+(harness/extract_c13.py); (3) the SOURCE TRANSLATION (harness/trans_c13.py): 20 crop / patch functions are translated
+from the source text of the working tree into lean/MenpoModel/Generated/C13Src.lean on every run and
+lean/MenpoModel/GenProps/C13Src.lean proves them equal to the model (`generated()` below; a source the vocabulary has
+no words for, or a failed equality, is a broken obligation followed by the directed search, never an exit 2).
+
 Three parties per generated case: the real menpo image classes (`Image`, `MaskedImage`, `BooleanImage`:
 `crop`, `crop_to_pointcloud`, `crop_to_landmarks`, `crop_to_true_mask`, `extract_patches`, `set_patches`, and
 the two functions of `menpo.image.patches`), a property oracle written with plain numpy slicing and
@@ -10,44 +16,82 @@ import glob
 import json
 import math
 import os
+import types
 from fractions import Fraction
 
 from . import common
 from . import extract_c13
+from . import trans_c13
 
 PROP = "C13"
 INFO = dict(
     technique="Lean 4 proof (index logic of crop and its wrappers / slicing path / sampling path with concrete "
               "order-0/1 constant/nearest samplers / set_patches over an executable flat-array model, every "
-              "dimension and channel count) + bit-exact model/implementation correspondence through the public "
-              "entry points + entry-point table regenerated from the live classes + independent numpy-slicing "
-              "oracle on the real image classes",
+              "dimension and channel count) + SOURCE TRANSLATION: 20 functions of menpo/image/base.py, patches.py, "
+              "masked.py, boolean.py and shape/pointcloud.py are translated from the source text of the working tree "
+              "into Lean on every run (harness/trans_c13.py over harness/py2lean2.py) and proved equal, for all "
+              "arguments, to the definitions the theorems are about + bit-exact model/implementation "
+              "correspondence through the public entry points + entry-point table regenerated from the live "
+              "classes + independent numpy-slicing oracle on the real image classes",
     level_text="Theorems over an executable model of Image.crop, crop_to_pointcloud / crop_to_landmarks (and their "
                "_proportion variants), MaskedImage.crop_to_true_mask, extract_patches (dispatch on order / mode), "
                "extract_patches_with_slice, extract_patches_by_sampling, _centered_patch, the order-0/1 "
                "constant/nearest samplers, extract_patches_around_landmarks, the list format and set_patches: the "
                "crop is exactly the block p + clamp(floor(min)) in any number of dimensions with landmarks "
-               "registered; the repaired raise-or-clip decision clips iff constraining is allowed, refuses "
-               "otherwise and never alters an in-bounds request (the coded `or` is refuted by witness); the box a "
+               "registered; the raise-or-clip decision clips iff constraining is allowed, refuses "
+               "otherwise and never alters an in-bounds request (the `or` of the original tree is refuted by "
+               "witness); the box a "
                "point set requests contains the pixel of every point except those on the whole-valued maximum "
                "when boundary = 0; every extraction path returns (centres, offsets, C, ph, pw) for every C, order "
-               "and mode (the coded reshape(3, ...) provably fails for every C != 3); order 1 is the bilinear "
+               "and mode (the original reshape(3, ...) provably fails for every C != 3); order 1 is the bilinear "
                "formula and reproduces the samples, 'constant' fills outside, 'nearest' is sampling at the clamped "
                "location; at integer centres/offsets the slicing path and the sampling path of order 0 and 1 agree "
                "pixel for pixel, outside pixels are the fill value, and set_patches restores interior windows - "
                "also through the public defaults and the list format.  For arbitrary centres the round trip is "
-               "characterised exactly: it holds iff int() and np.round pick the same pixel (fractional part < 1/2 "
-               "for non-negative coordinates), otherwise the write-back is the image shifted by one pixel; with "
-               "np.round in set_patches it holds everywhere away from ties.  The model is tied to /repo by running "
+               "characterised exactly for both placements (int() of the original tree: iff int() and np.round pick "
+               "the same pixel; np.round of the repaired tree: everywhere away from ties).  "
+               "TRANSLATED, not transcribed (Generated/C13Src.lean, rewritten from the source text on every run; "
+               "GenProps/C13Src.lean: genF = Src.f; Lemmas/C13Src.lean: Src.f = Core definition): "
+               "Image.constrain_points_to_bounds, Image.crop (floor / ceil, both ValueErrors, the bounded copies, the "
+               "raise-or-clip decision, what goes to warp_to_shape, the aliasing of `cropped` and `result`, the final "
+               "block copy), PointCloud.bounds / range, crop_to_pointcloud, crop_to_landmarks, "
+               "crop_to_pointcloud_proportion, crop_to_landmarks_proportion, BooleanImage.true_indices / bounds_true, "
+               "MaskedImage.crop_to_true_mask, _centered_patch (linspace / meshgrid / stack / half pixel), "
+               "extract_patches_by_sampling (broadcast of the grid against centres and offsets, flattening, reshape "
+               "with the image's channel count, transposition), extract_patches_with_slice (half-pixel shift, "
+               "corners, np.round, np.clip, patch bounds and the two nested for loops with their slice assignment: "
+               "proved equal to the element-wise model by a loop invariant), set_patches of patches.py (the loop over "
+               "zip(patches, centres), np.round placement, low / high half extents, slice assignment), "
+               "Image.extract_patches (2-D check, order / mode dispatch, which argument goes to which path, both "
+               "return formats), extract_patches_around_landmarks, Image.set_patches (the three spellings of offset, "
+               "offset_index default, list conversion, copy), set_patches_around_landmarks and "
+               "_convert_patches_list_to_single_array (integer division, attributes of the first entry, the two "
+               "nested loops with their running index).  The property theorems "
+               "are restated about the translated definitions (gen_crop_spec, gen_crop_never_silently_altered, "
+               "gen_crop_to_pointcloud_spec, gen_crop_to_true_mask_spec, gen_slicing_patch_layout, "
+               "gen_sampling_patch_layout, gen_extractPatches_shape, gen_slice_eq_sampling_at_integers, "
+               "gen_outside_is_fill, gen_set_extract_roundtrip, gen_landmarks_roundtrip_api).  "
+               "The model is also tied to /repo by running "
                "the real classes on generated cases (all image classes, 1-5 channels, 7 dtypes, 2-D/3-D crops, "
                "each side separately, wrappers with omitted arguments, images born from earlier crops / patch "
                "lists / set_patches, odd/even/non-square patches, centres inside/near/beyond borders, integer and "
                "fractional, zero centres, list and array formats) and diffing whole arrays, landmarks and error "
-               "kinds against the Lean driver, and by a regenerated table of suppliers, parameters and defaults.",
+               "kinds against the Lean driver (Image.constrain_points_to_bounds, BooleanImage.bounds_true with and "
+               "without constraining and PointCloud.bounds / range are also called directly and compared with the "
+               "mirrors of their translations), and by a regenerated table of suppliers, parameters and defaults.",
     level_note="Trusted: Lean kernel; axioms propext/Classical.choice/Quot.sound; the Python harness and the driver's "
-               "parser; numpy basic slicing/broadcasting, np.round (half to even), np.clip, np.floor/ceil, np.min/max, "
-               "reshape and transpose semantics are modelled (Core/C13NDArr.lean, Core/C13Crop.lean, Core/C13Api.lean, "
-               "Core/PyData.lean) and exercised by the correspondence, not verified; scipy.ndimage.map_coordinates is "
+               "parser; the translator harness/py2lean2.py + harness/trans_c13.py and its vocabulary "
+               "(Core/C13Src.lean part 1: what each numpy expression of the translated functions means on the "
+               "model's data - np.floor/ceil, boolean-mask assignment, np.clip, np.round, python slices and "
+               "basic-slice assignment with broadcasting errors, linspace/meshgrid/stack/reshape/transpose, iteration "
+               "over an array, np.min/max with their ValueError): a rule that mistranslated a construct would make "
+               "the obligations speak about something else; the correspondence runs on the same functions and would "
+               "disagree; numpy basic slicing/broadcasting, np.round (half to even), np.clip, np.floor/ceil, "
+               "np.min/max, reshape and transpose semantics are modelled (Core/C13NDArr.lean, Core/C13Crop.lean, "
+               "Core/C13Api.lean, Core/C13Src.lean, Core/PyData.lean) and exercised by the correspondence, not "
+               "verified; Image.warp_to_shape with a Translation and order 0 is a vocabulary word (the index grid "
+               "translated and sampled per channel, landmarks through the inverse translation), not translated; "
+               "scipy.ndimage.map_coordinates is "
                "a contract parameter of the layout theorems; its order-0/1, constant/nearest behaviour is the model "
                "`sampleRat`, about which the sampler theorems are proved and which is checked against scipy on every "
                "run; inspect.signature / the MRO as read by harness/extract_c13.py.",
@@ -55,19 +99,7 @@ INFO = dict(
          "bounds or centres/offsets/patch shape, flags, omitted arguments); "
          "distinct = distinct parameter tuple; non-trivial = crop request not equal to the whole image / patch request "
          "with at least one centre and a patch of more than one pixel",
-    partial=["decision recorded - set_patches at fractional centres: set_patches truncates (int()) while extraction "
-             "rounds (np.round).  Theorems: the round trip holds exactly where the two agree "
-             "(set_extract_roundtrip_coded, truncZ_eq_round_iff: non-negative coordinate with fractional part < 1/2), "
-             "otherwise the written block is the source shifted by one pixel (set_extract_shifted, "
-             "set_extract_not_restored); with np.round in set_patches it holds at every centre away from ties "
-             "(set_extract_roundtrip_repaired).  Read against the property text the round-trip clause stands under "
-             "'at integer centres and offsets' and the quantifier assigns fractional centres to the per-path "
-             "reference comparison, so the behaviour is OUTSIDE the quantifier and is not judged: it is counted "
-             "(distribution keys note:roundtrip-fractional-*), its prediction by the theorems is compared with the "
-             "real code on every fractional case, and the one-line repair is proposed as a side finding "
-             "(notes/fixes/C13-set-patches-rounding.diff; extract_patches_around_landmarks followed by "
-             "set_patches_around_landmarks on real, fractional landmarks moves patches by one pixel)",
-             "decision recorded - last row / column of crop_to_pointcloud / crop_to_landmarks / crop_to_true_mask: a "
+    partial=["decision recorded - last row / column of crop_to_pointcloud / crop_to_landmarks / crop_to_true_mask: a "
              "point whose coordinate is whole and equal to the maximum (boundary 0) lies on the far edge of the crop "
              "and its own pixel row is cut (for crop_to_true_mask: the last true row and column).  This IS the block "
              "between floored minimum and ceiled maximum the property text prescribes, and menpo's tests pin it "
@@ -76,12 +108,40 @@ INFO = dict(
              "interpolation orders 2-5 and modes 'reflect' / 'wrap' of map_coordinates are not modelled (the layout "
              "theorem is generic in the sampler; the property names nearest-neighbour/constant for the path clause)",
              "the _proportion wrappers are exercised with dyadic proportions and coordinates only (float product "
-             "exact); other proportions differ from the exact-rational model by float rounding of the boundary"],
+             "exact); other proportions differ from the exact-rational model by float rounding of the boundary",
+             "translation, outside the modelled domain: lists of patch images of differing shapes (numpy would "
+             "broadcast or raise; the translated _convert_patches_list_to_single_array is proved equal to the model's "
+             "fromPatchList for lists of one (C, h, w) shape) are not modelled; a negative offset_index "
+             "and constrain_points_to_bounds on a 2-D array of points (constrain_landmarks_to_bounds) are not "
+             "modelled; return_transform=True is modelled as returning the same image (the transform object is not "
+             "part of the model)",
+             "set_patches at fractional centres is outside the property's quantifier ('at integer centres and "
+             "offsets'); /repo rounds since fix 5b997e6 and the translated set_patches is proved equal to the "
+             "rounding placement (genSetPatches_model: an int() regression breaks that obligation); on fractional "
+             "cases the correspondence accepts either placement and records which one the tree has "
+             "(set_patches_placement_observed)"],
     assumptions=["inputs are small integers / dyadic rationals so float64 arithmetic in the implementation is exact",
                  "sampling-path cases avoid rounding ties of scipy (coordinate + 1/2 integral)",
                  "OpenCV is not installed in this environment, so warp_to_shape takes the scipy path"],
     design_ref="DESIGN.md section 6, C13")
-IMPORTS = ["MenpoModel.Props.C13", "MenpoModel.GenProps.C13"]
+# obligations over the source translation (GenProps/C13Src.lean; re-checked against the text regenerated from /repo)
+SRC_GEN = ["genConstrainPointsToBounds", "genCrop", "genPcBounds", "genPcRange", "genCropToPointcloud",
+           "genCropToLandmarks", "genCropToPointcloudProportion", "genCropToLandmarksProportion", "genTrueIndices",
+           "genBoundsTrue", "genCropToTrueMask", "genCenteredPatch", "genExtractPatchesBySampling",
+           "genExtractPatchesWithSlice", "genSetPatches", "genExtractPatches", "genExtractPatchesAroundLandmarks",
+           "genSetPatchesApi", "genSetPatchesAroundLandmarks", "genConvertPatchesList"]
+SRC_MODEL = ["genConstrainPointsToBounds", "genCrop", "genCropToPointcloud", "genCropToLandmarks",
+             "genCropToPointcloudProportion", "genCropToLandmarksProportion", "genCropToTrueMask",
+             "genExtractPatchesWithSlice", "genExtractPatchesBySampling", "genSetPatches", "genExtractPatches",
+             "genExtractPatchesAroundLandmarks", "genSetPatchesApi", "genSetPatchesApi_list", "genConvertPatchesList"]
+SRC_PROPS = ["gen_crop_spec", "gen_slicing_patch_layout", "gen_sampling_patch_layout",
+             "gen_slice_eq_sampling_at_integers", "gen_outside_is_fill", "gen_set_extract_roundtrip",
+             "gen_extractPatches_shape", "gen_landmarks_roundtrip_api", "gen_crop_never_silently_altered",
+             "gen_crop_to_pointcloud_spec", "gen_crop_to_true_mask_spec"]
+SRC_THEOREMS = (["MenpoModel.C13.GenProps.%s_eq" % g for g in SRC_GEN]
+                + ["MenpoModel.C13.GenProps.%s_model" % g for g in SRC_MODEL]
+                + ["MenpoModel.C13.GenProps.%s" % g for g in SRC_PROPS])
+IMPORTS = ["MenpoModel.Props.C13", "MenpoModel.GenProps.C13", "MenpoModel.GenProps.C13Src"]
 THEOREMS = [
     "MenpoModel.C13.crop_spec",
     "MenpoModel.C13.crop_exact",
@@ -139,9 +199,36 @@ THEOREMS = [
     "MenpoModel.C13.GenProps.kernels_shared",
     "MenpoModel.C13.GenProps.defaults_ok",
     "MenpoModel.C13.GenProps.around_landmarks_params",
-]
+    # the mirrors of the translated source equal the Core definitions (Lemmas/C13Src.lean, hand-written)
+    "MenpoModel.C13.Src.constrainPointsToBounds_eq",
+    "MenpoModel.C13.Src.crop_eq_core",
+    "MenpoModel.C13.Src.pcBounds_eq",
+    "MenpoModel.C13.Src.pcRange_eq",
+    "MenpoModel.C13.Src.cropToPointcloud_eq_core",
+    "MenpoModel.C13.Src.cropToLandmarks_eq_core",
+    "MenpoModel.C13.Src.cropToPointcloudProportion_eq_core",
+    "MenpoModel.C13.Src.cropToLandmarksProportion_eq_core",
+    "MenpoModel.C13.Src.trueIndices_eq",
+    "MenpoModel.C13.Src.cropToTrueMask_eq_core",
+    "MenpoModel.C13.Src.centeredPatch_eq",
+    "MenpoModel.C13.Src.extractPatchesBySampling_eq_core",
+    "MenpoModel.C13.Src.extractPatchesBySampling_not3",
+    "MenpoModel.C13.Src.setPatches_eq_core",
+    "MenpoModel.C13.Src.sliceStep_inv",
+    "MenpoModel.C13.Src.extractPatchesWithSlice_eq_core",
+    "MenpoModel.C13.Src.rows_flat_eq_toPatchList",
+    "MenpoModel.C13.Src.extractPatches_eq_core",
+    "MenpoModel.C13.Src.extractPatches_not2d",
+    "MenpoModel.C13.Src.extractPatchesAroundLandmarks_eq_core",
+    "MenpoModel.C13.Src.convertStep_inv",
+    "MenpoModel.C13.Src.convertPatchesList_eq_core",
+    "MenpoModel.C13.Src.setPatchesApi_single_eq_core",
+    "MenpoModel.C13.Src.setPatchesApi_list_eq_core",
+    "MenpoModel.C13.Src.setPatchesApi_bad_offset",
+] + SRC_THEOREMS
 
 DTYPES = ["uint8", "uint16", "int32", "int64", "float32", "float64", "bool"]
+
 HALF = Fraction(1, 2)
 
 
@@ -251,6 +338,22 @@ def build_image(case):
         blk = np.full((1, 1, img.n_channels, ph, pw), 1 if img.pixels.dtype == bool else pre["value"]).astype(img.pixels.dtype)
         img = img.set_patches(blk, PointCloud(np.array([pre["centre"]], dtype=float)))
     return img
+
+
+def previous_life_failed(ctx, case, e, rp):
+    """the image of a case could not be built: its previous life (an interior crop / an interior patch extraction /
+    a set_patches of an interior block - calls the property says must succeed) raised in the implementation.
+    That is a failure of the real code, not of the harness."""
+    kind = (case.get("pre") or {}).get("kind")
+    if kind is None:
+        raise e
+    site = {"crop": "C13/crop.boundary", "patch": "C13/extract_patches.slicing.shape",
+            "set": "C13/set_patches.roundtrip"}[kind]
+    ctx.count("previous-life-raised:" + kind)
+    ctx.fail(site, "previous-life-raises-" + type(e).__name__,
+             "building the image of the case through an interior %s (previous life %r) raised %s: %s" % (
+                 {"crop": "crop", "patch": "extract_patches", "set": "set_patches"}[kind], case["pre"],
+                 type(e).__name__, str(e)[:160]), rp)
 
 
 def val_str(x):
@@ -391,7 +494,11 @@ def run_crop_case(ctx, case, lines, cid):
     how = case.get("how", "crop")
     site = "C13/" + CROP_SITE[how]
     rp = {"kind": "crop", "case": case, "python": crop_python(case)}
-    img = build_image(case)
+    try:
+        img = build_image(case)
+    except Exception as e:
+        previous_life_failed(ctx, case, e, rp)
+        return {}
     src = img.pixels.copy()
     spatial = list(img.shape)
     mn, mx = crop_request(img, case)
@@ -480,6 +587,9 @@ def run_crop_case(ctx, case, lines, cid):
     obs = {}
     c = "1" if case["constrain"] else "0"
     shape_s = "%d %s" % (len(spatial), " ".join(str(s) for s in spatial))
+    # ---- the helpers the crop is built from, through their own public entry points
+    if not wrong_len:
+        obs.update(run_helper_calls(ctx, case, img, spatial, lo, hi, clo, chi, lines, cid, rp))
     lines.append("%s.bc bounds c %s %s %s %s" % (cid, c, shape_s, rats(mn), rats(mx)))
     lines.append("%s.br bounds r %s %s %s %s" % (cid, c, shape_s, rats(mn), rats(mx)))
     decision = "err " + ek if err is not None else "ok"
@@ -521,6 +631,79 @@ def run_crop_case(ctx, case, lines, cid):
             obs[cid + ".mk"] = ("err " + ek) if err is not None else norm_reply("ok " + arr_out(out.mask.pixels) + " L")
             if how in ("pointcloud_prop", "landmarks_prop"):
                 obs[cid + ".mk"] = "B %s %s" % (common.fq(float(proportion_boundary(case))), obs[cid + ".mk"])
+    return obs
+
+
+def ints(xs):
+    return "%d %s" % (len(xs), " ".join(str(int(x)) for x in xs))
+
+
+def run_helper_calls(ctx, case, img, spatial, lo, hi, clo, chi, lines, cid, rp):
+    """Image.constrain_points_to_bounds on the floored minimum and the ceiled maximum of the case ("requested indices
+    clipped to the image": judged by the oracle), BooleanImage.bounds_true with and without constraining for
+    crop_to_true_mask cases (judged), PointCloud.bounds / range for the point-set wrappers (correspondence only);
+    the model side runs the mirrors of the translated source (driver ops cptb / btrue / pcb)."""
+    np = np_()
+    obs = {}
+    how = case.get("how", "crop")
+    for tag, vec, want in (("lo", lo, clo), ("hi", hi, chi)):
+        try:
+            got = img.constrain_points_to_bounds(np.array(vec, dtype=float))
+            got_l = [float(x) for x in np.asarray(got).ravel().tolist()]
+            ok = got_l == [float(x) for x in want]
+            err = None
+        except Exception as e:
+            got_l, ok, err = None, False, e
+        ctx.count("helper:constrain_points_to_bounds")
+        if not ok:
+            ctx.fail("C13/constrain_points_to_bounds", "not-clipped-to-image" if err is None else "raises-" + type(err).__name__,
+                     "constrain_points_to_bounds(%s) on shape %s gave %s, the point clipped to the image is %s" % (
+                         vec, spatial, got_l if err is None else type(err).__name__, want), dict(rp, helper=tag))
+        else:
+            lines.append("%s.cp%s cptb %s %s" % (cid, tag, "%d %s" % (len(spatial), " ".join(str(s) for s in spatial)), ints(vec)))
+            obs["%s.cp%s" % (cid, tag)] = norm_reply("ok " + " ".join(str(int(x)) for x in got_l))
+    if how == "true_mask":
+        idx = np.argwhere(img.mask.pixels[0])
+        b = int(case["boundary"])
+        for flag in (False, True):
+            try:
+                mins, maxes = img.mask.bounds_true(boundary=b, constrain_to_bounds=flag)
+                err = None
+            except Exception as e:
+                mins = maxes = None
+                err = e
+            ctx.count("helper:bounds_true/" + ("constrained" if flag else "raw"))
+            if len(idx) == 0:
+                continue   # an all-false mask has no true bounds (numpy raises ValueError): outside the quantifier
+            wmin = [int(idx[:, k].min()) - b for k in range(idx.shape[1])]
+            wmax = [int(idx[:, k].max()) + b for k in range(idx.shape[1])]
+            if flag:
+                wmin = [min(max(x, 0), n) for x, n in zip(wmin, spatial)]
+                wmax = [min(max(x, 0), n) for x, n in zip(wmax, spatial)]
+            ok = err is None and [int(x) for x in mins] == wmin and [int(x) for x in maxes] == wmax
+            if not ok:
+                ctx.fail("C13/bounds_true", "wrong-bounds" if err is None else "raises-" + type(err).__name__,
+                         "mask.bounds_true(boundary=%d, constrain_to_bounds=%s) gave %s, the true pixels span %s..%s" % (
+                             b, flag, None if err is not None else ([int(x) for x in mins], [int(x) for x in maxes]),
+                             wmin, wmax), dict(rp, helper="bounds_true", constrain_to_bounds=flag))
+            else:
+                key = "%s.bt%d" % (cid, int(flag))
+                lines.append("%s btrue %d %s %d" % (key, int(flag), arr_in(img.mask.pixels), b))
+                obs[key] = norm_reply("ok %s | %s" % (" ".join(str(int(x)) for x in mins), " ".join(str(int(x)) for x in maxes)))
+    if how in ("pointcloud", "landmarks"):
+        from menpo.shape import PointCloud
+        pts = cloud_of(case)
+        pc = PointCloud(np.array(pts, dtype=float))
+        try:
+            mn_, mx_ = pc.bounds(boundary=case["boundary"])
+            rg_ = pc.range()
+            ctx.count("helper:pointcloud-bounds")
+            lines.append("%s.pcb pcb %d %s %s" % (cid, len(pts), " ".join(rats(p) for p in pts), common.fq(case["boundary"])))
+            obs[cid + ".pcb"] = norm_reply("ok %s | %s ; %s" % (" ".join(common.fq(float(x)) for x in mn_),
+                                                                " ".join(common.fq(float(x)) for x in mx_),
+                                                                " ".join(common.fq(float(x)) for x in rg_)))
+        except Exception:
+            ctx.count("helper:pointcloud-bounds-raised")
     return obs
 
 
@@ -777,7 +960,11 @@ def patch_python(case):
 
 def run_patch_case(ctx, case, lines, cid):
     np = np_()
-    img, centres, offs, offs_arr = patch_inputs(case)
+    try:
+        img, centres, offs, offs_arr = patch_inputs(case)
+    except Exception as e:
+        previous_life_failed(ctx, case, e, {"kind": "patch", "case": case, "path": "api-slice", "python": patch_python(case)})
+        return {}
     pix = img.pixels
     C, H, W = pix.shape
     ph, pw = case["patch_shape"]
@@ -1028,7 +1215,11 @@ def trunc_agrees(x):
 def run_set_case(ctx, case, lines, cid):
     np = np_()
     from menpo.shape import PointCloud
-    img, centres, offs, offs_arr = patch_inputs(case)
+    try:
+        img, centres, offs, offs_arr = patch_inputs(case)
+    except Exception as e:
+        previous_life_failed(ctx, case, e, {"kind": "set", "case": case, "python": set_python(case)})
+        return {}
     pix = img.pixels
     C, H, W = pix.shape
     ph, pw = case["patch_shape"]
@@ -1294,10 +1485,29 @@ def corpus(ctx, lines, obs, cases):
 
 
 def generated(ctx):
-    """regenerate the entry-point table from the live classes and re-check its obligations (DESIGN 2.3b)"""
-    ok = common.build_generated(ctx, extract_c13.lean_files(), extract_c13.TARGETS, extract_c13.N_OBLIGATIONS)
+    """regenerate the entry-point table from the live classes and re-check its obligations (DESIGN 2.3b); translate
+    the crop / patch functions from the source text of the working tree and re-check `translated = model`.
+    One lake invocation when everything checks (the usual case); when it does not, the two groups are built
+    separately so that the broken obligation names the group that broke."""
+    files, reasons = trans_c13.generated_files()
+    both = dict(extract_c13.lean_files())
+    both.update(files)
+    n_src = len(SRC_THEOREMS)
+    probe = types.SimpleNamespace(gen_obligations=0, broken_obligations=[])
+    ok_all = common.build_generated(probe, both, extract_c13.TARGETS + trans_c13.GEN_TARGETS, 0)
+    if ok_all:
+        ctx.gen_obligations += extract_c13.N_OBLIGATIONS + n_src
+        ok = ok2 = True
+    else:
+        ok = common.build_generated(ctx, {}, extract_c13.TARGETS, extract_c13.N_OBLIGATIONS)
+        ok2 = common.build_generated(ctx, {}, trans_c13.GEN_TARGETS, n_src)
+        if reasons and not ok2:
+            ctx.broken_obligations[-1]["untranslatable"] = reasons
     ctx.count("entry-point-table:" + ("ok" if ok else "BROKEN"))
     ctx.notes["entry_point_rows"] = len(extract_c13.table())
+    ctx.count("source-translation:" + ("ok" if ok2 else "BROKEN"))
+    ctx.notes["source_translation"] = {"functions_translated": len(SRC_GEN), "untranslatable": reasons,
+                                       "obligations": n_src}
 
 
 def prepare(ctx):
@@ -1305,11 +1515,15 @@ def prepare(ctx):
     (recorded in ctx.broken_obligations: a finding about /repo, not an infrastructure error) the audit covers the
     hand-written theorems only, since GenProps/C13.olean does not exist then."""
     generated(ctx)
-    if ctx.broken_obligations:
-        imports = [m for m in IMPORTS if "GenProps" not in m]
-        theorems = [t for t in THEOREMS if ".GenProps." not in t]
-    else:
-        imports, theorems = IMPORTS, THEOREMS
+    broken = {t for b in ctx.broken_obligations for t in b.get("targets", [])}
+    imports, theorems = list(IMPORTS), list(THEOREMS)
+    if "MenpoModel.GenProps.C13" in broken:
+        imports.remove("MenpoModel.GenProps.C13")
+        theorems = [t for t in theorems if t.rsplit(".", 1)[1] not in
+                    ("entries_ok", "kernels_shared", "defaults_ok", "around_landmarks_params")]
+    if "MenpoModel.GenProps.C13Src" in broken:
+        imports.remove("MenpoModel.GenProps.C13Src")
+        theorems = [t for t in theorems if t not in SRC_THEOREMS]
     common.prepare_lean(ctx, PROP, imports, theorems)
 
 
